@@ -14,6 +14,11 @@ pub mod sql_join_op;
 pub mod sql_subq;
 pub mod cal;
 pub mod json;
+pub mod sqlx;
+pub mod sql_order;
+pub mod sql_agg;
+pub mod sql_fn;
+pub mod sql_rewrite;
 
 pub fn run(engine: &str, ctx: &Ctx) -> Report {
     match engine {
@@ -28,6 +33,10 @@ pub fn run(engine: &str, ctx: &Ctx) -> Report {
         "sql_subq" => sql_subq::run(ctx),
         "cal" => cal::run(ctx),
         "json" => json::run(ctx),
+        "sql_order" => sql_order::run(ctx),
+        "sql_agg" => sql_agg::run(ctx),
+        "sql_fn" => sql_fn::run(ctx),
+        "sql_rewrite" => sql_rewrite::run(ctx),
         _ => {
             eprintln!("unknown engine {engine}");
             std::process::exit(2);
